@@ -146,15 +146,47 @@ Definition spec_ok_with (rel : jworld -> call -> call -> bool) (c : case) : bool
 
 Definition spec_ok (c : case) : bool := spec_ok_with non_interfering c.
 
+(* The property quantifies over actions whose simultaneous effects are consistent (Spec.Pddl.consistent: no atom added by
+   one effect group and deleted by another, no fluent assigned twice).  An action instance such as (act2 a2 c0) with
+   effects (not (p0 ?x)) and (when .. (p0 c0)) is not: the library's answer then depends on the iteration order of a set
+   of effect objects hashed by address (it differed between two runs inside ONE long-lived process).  Such plans are
+   outside the quantifier: recognised on the INPUT (the plan's calls, or what the model's scanner extracts from a raw
+   text) along the spec's sequential run, and along the joint run of the returned joint actions (members in slot order). *)
+Fixpoint seq_consistent (w : jworld) (s : state) (plan : list call) : bool :=
+  match plan with
+  | [] => true
+  | c :: r => consistent (groups_of w s c) && seq_consistent w (step w s c) r
+  end.
+
+Fixpoint joint_consistent (w : jworld) (s : state) (js : list joint) : bool :=
+  match js with
+  | [] => true
+  | j :: r => seq_consistent w s (members j) && joint_consistent w (fold_left (step w) (members j) s) r
+  end.
+
+Definition case_plan (c : case) : list call :=
+  match c_calls c with
+  | Some p => p
+  | None => match extract_plan_actions (c_agents c) (unesc (c_plan c)) with Ok pa => map fst pa | Err _ => [] end
+  end.
+
+Definition effects_consistent (c : case) : bool :=
+  match spec_world c with
+  | Some w => seq_consistent w (c_init c) (case_plan c) &&
+              match c_joint c with Returned js => joint_consistent w (c_init c) js | Raised => true end
+  | None => true
+  end.
+
 Definition judge (k : consts) (c : case) : verdict :=
+  if negb (effects_consistent c) then {| v_agree := c_intact c; v_ok := c_intact c; v_known := false |} else
   {| v_agree := consts_ok k && agree c && c_intact c;
      v_ok := spec_ok c && c_intact c;
      (* inside the class of D70 everything else must still hold *)
      v_known := known_class c && spec_ok_with effects_compatible c |}.
 
-(* two characters per case: the verdict, then the class of the input *)
+(* two characters per case: the verdict, then the class of the input ('c': inconsistent effects, not judged) *)
 Definition run (k : consts) (cases : list case) : string :=
-  t2s (flat_map (fun c => [verdict_char (judge k c); class_char c]) cases).
+  t2s (flat_map (fun c => [verdict_char (judge k c); if effects_consistent c then class_char c else "c"%char]) cases).
 
 (* debugging aid: per step of the joint run (continued past ill-defined steps): all members applicable in the
    step's pre-state?  pairwise non-interfering? *)
